@@ -1575,3 +1575,73 @@ func c14r16(rc *core.RC) {
 		rc.Unknown("encoder/structTypeToCodes-stores", token.NoPos, "no store into compileContext.structTypeToCodes found")
 	}
 }
+
+// ---- C14.R17 the description of the type section is written once, where it is made ----
+
+// runtime.AnalyzeTypeAddr returns one *TypeAddr for the process; the encoder and the decoder both keep that pointer
+// and compute the slot of a type from its fields ((typeptr-BaseTypeAddr)>>AddrShift) on every call. A field changed
+// by one of them after the other has filled slots (a larger shift to halve a cache) lets a type find the program of
+// another. Obligation: no assignment in the library stores into a field of runtime.TypeAddr outside package runtime.
+func c14r17(rc *core.RC) {
+	p := rc.P
+	n := 0
+	for _, pk := range p.LibPkgs() {
+		info := pk.TypesInfo
+		for _, fd := range p.Funcs(pk.Name) {
+			if fd.Body == nil {
+				continue
+			}
+			k := 0
+			ast.Inspect(fd.Body, func(m ast.Node) bool {
+				var targets []ast.Expr
+				switch x := m.(type) {
+				case *ast.AssignStmt:
+					targets = x.Lhs
+				case *ast.IncDecStmt:
+					targets = []ast.Expr{x.X}
+				}
+				for _, tg := range targets {
+					sel, ok := core.Unparen(tg).(*ast.SelectorExpr)
+					if !ok {
+						continue
+					}
+					s := info.Selections[sel]
+					if s == nil || s.Kind() != types.FieldVal || !strings.HasSuffix(strings.TrimPrefix(s.Recv().String(), "*"), "internal/runtime.TypeAddr") {
+						continue
+					}
+					n++
+					k++
+					rc.Touch(p.FuncName(fd))
+					key := fmt.Sprintf("%s/TypeAddr.%s-store#%d", p.FuncName(fd), sel.Sel.Name, k)
+					if pk.Name == "runtime" {
+						rc.OK(key, tg.Pos(), "written where the description is made")
+					} else {
+						rc.Bad(key, tg.Pos(), "%s changes runtime.TypeAddr.%s: the value is shared by the encoder and the decoder, which both compute cache slots from it on every call; slots filled before the change are found by other types after it (the encoding of a type depends on whether something was decoded first)", p.FuncName(fd), sel.Sel.Name)
+					}
+				}
+				return true
+			})
+		}
+	}
+	// the composite literal in AnalyzeTypeAddr is the positive instance
+	lit := 0
+	for _, fd := range p.Funcs("runtime") {
+		if fd.Body == nil {
+			continue
+		}
+		info := p.Info(fd)
+		ast.Inspect(fd.Body, func(m ast.Node) bool {
+			if cl, ok := m.(*ast.CompositeLit); ok {
+				if tv, has := info.Types[cl]; has && strings.HasSuffix(tv.Type.String(), "internal/runtime.TypeAddr") {
+					lit++
+				}
+			}
+			return true
+		})
+	}
+	if lit < 1 {
+		rc.Unknown("runtime/TypeAddr-literal", token.NoPos, "the composite literal that makes the TypeAddr was not found")
+	} else if n == 0 {
+		rc.OK("library/TypeAddr-fields-written-only-where-made", token.NoPos, "no field of runtime.TypeAddr is assigned anywhere; the value is made by one composite literal in package runtime")
+	}
+}
